@@ -411,7 +411,10 @@ def check(spec):
     lb = [np.asarray(d) for d in b.data]
     if rt != "bind-same" and o["k"] == "cat" and any(k in o["g"].get("kw", {}) for k in ("normalize", "pad_with")):
         return skip("rebinding:constructor-normalises-or-pads-its-parameter(documented)")
-    if (len(lb) != len(new) or not all(_leaf_eq(x, y) for x, y in zip(lb, new))) and _only_cob_reversals(f0, _hp_fingerprint(b)) == "reversed":
+    def _flat(xs):
+        return sorted(float(np.real(v)) for x in xs for v in np.ravel(np.asarray(x, dtype=complex)))
+
+    if (len(lb) != len(new) or not all(_leaf_eq(x, y) for x, y in zip(lb, new))) and "ChangeOpBasis" in repr(f0) and _flat(lb) == _flat(new):
         return bad("bind_new_parameters:ChangeOpBasis-operands-reversed", [np.asarray(x).tolist() for x in lb][:4], [np.asarray(x).tolist() for x in new][:4], rt=rt)
     if len(lb) != len(new) or not all(_leaf_eq(x, y) for x, y in zip(lb, new)):
         return bad(f"{rt}:parameters-not-the-new-ones:{lab}", [np.asarray(x).tolist() for x in lb][:4], [np.asarray(x).tolist() for x in new][:4])
